@@ -1,8 +1,5 @@
-mod build;
-mod obs;
-mod val;
-
-use obs::*;
+use bpaf_verif_harness::obs::*;
+use bpaf_verif_harness::val::enc;
 use serde_json::{json, Value as J};
 use std::collections::HashMap;
 use std::io::{BufRead, BufReader, BufWriter, Write};
@@ -137,11 +134,83 @@ fn cmd_replay(args: &[String]) -> i32 {
     0
 }
 
+/// C11: run cases through the real executable (`OptionParser::run()` in a child process) and record,
+/// per run, the in-process prediction and the events observed from outside the process
+fn cmd_proc(args: &[String]) -> i32 {
+    use std::os::unix::ffi::OsStrExt;
+    use std::os::unix::process::CommandExt;
+    use std::process::{Command, Stdio};
+    let defs = arg_val(args, "--defs").map(|p| load_defs(&p)).unwrap_or_default();
+    let cases = arg_val(args, "--cases").expect("--cases");
+    let out = arg_val(args, "--out").expect("--out");
+    let app = arg_val(args, "--app").expect("--app");
+    let mut cache = Cache::new(defs);
+    let mut w = BufWriter::new(std::fs::File::create(&out).unwrap());
+    let rd = BufReader::new(std::fs::File::open(&cases).unwrap());
+    let arg0s: [&[u8]; 4] = [b"app", b"some/dir/app", b"./tool.v2", b"ap\xffp"];
+    let mut n = 0u64;
+    for (ix, l) in rd.lines().enumerate() {
+        let l = l.unwrap();
+        if l.trim().is_empty() {
+            continue;
+        }
+        let case: J = serde_json::from_str(&l).expect("case json");
+        let argv = if case.get("argv").is_some() {
+            concretize(&case["argv"])
+        } else {
+            concretize(&case["line"])
+        };
+        let a0 = arg0s[case.get("arg0").and_then(J::as_u64).map(|x| x as usize).unwrap_or(ix) % arg0s.len()];
+        // the documented rule: the program name is the file name of argv[0] (when it is UTF-8)
+        let fname = a0.rsplit(|c| *c == b'/').next().unwrap();
+        let name = std::str::from_utf8(fname).ok();
+        let comp = case.get("comp").and_then(J::as_u64).map(|c| c as usize);
+        let (b, _) = cache.get(&case);
+        let b = match b {
+            Ok(b) => b,
+            Err(_) => continue,
+        };
+        let o = run(b, &argv, &RunOpts { name, comp: None });
+        let pred = json!({"class": o.class, "text": o.text,
+                          "vjson": o.value.as_ref().map(|v| v.to_string()).unwrap_or_default()});
+        let mut cmd = Command::new(&app);
+        cmd.arg0(std::ffi::OsStr::from_bytes(a0));
+        cmd.args(&argv);
+        let _ = comp;
+        cmd.env_clear();
+        cmd.env("BPAF_VERIF_DEF", b.def.to_string());
+        cmd.stdin(Stdio::null());
+        let res = cmd.output().expect("spawn harness-app");
+        let mut events = vec![json!({"e":"spawn"})];
+        let so = String::from_utf8_lossy(&res.stdout).to_string();
+        let se = String::from_utf8_lossy(&res.stderr).to_string();
+        if !so.is_empty() {
+            events.push(json!({"e":"out","stream":"stdout","text":so}));
+        }
+        if !se.is_empty() {
+            events.push(json!({"e":"out","stream":"stderr","text":se}));
+        }
+        if so.starts_with("BODY ") {
+            events.push(json!({"e":"body"}));
+        }
+        events.push(json!({"e":"exit","code": res.status.code().unwrap_or(-1)}));
+        writeln!(w, "{}", json!({"def": case["def"], "argv": argv_json(&argv), "arg0": enc(a0),
+                                 "pred": pred, "events": events,
+                                 "spec": case["expect"]["class"].as_str().unwrap_or("any"),
+                                 "outside": case["outside"].as_bool().unwrap_or(false)})).unwrap();
+        n += 1;
+    }
+    w.flush().unwrap();
+    println!("{}", json!({"runs": n}));
+    0
+}
+
 fn main() {
     std::panic::set_hook(Box::new(|_| {}));
     let args: Vec<String> = std::env::args().collect();
     let code = match args.get(1).map(|s| s.as_str()) {
         Some("replay") => cmd_replay(&args[2..]),
+        Some("proc") => cmd_proc(&args[2..]),
         _ => {
             eprintln!("usage: harness replay --defs F --cases F --out F [--dump-obs F]");
             2
